@@ -204,6 +204,8 @@ pub const STACKS: [(&str, &[&str]); 14] = [
 pub enum InnerKind {
     Probe,
     ProbePending(u32),
+    /// every instance needs this many microseconds of virtual time after its creation to become ready
+    ProbeWarm(u64),
     ProbeReadyErr,
     Buffer,
     ConcurrencyLimit,
@@ -229,6 +231,7 @@ pub fn assemble(w: &Arc<World>, target: &str, kind: InnerKind, variant: u64) -> 
     let mut svc: Svc = match kind {
         InnerKind::Probe => build(first, w.probe(1), variant),
         InnerKind::ProbePending(k) => build(first, w.probe(1).with_ready(ReadyScript::PendN(k)), variant),
+        InnerKind::ProbeWarm(us) => build(first, w.probe(1).with_ready(ReadyScript::WarmUp(us)), variant),
         InnerKind::ProbeReadyErr => build(first, w.probe(1).with_ready(ReadyScript::Fail(5)), variant),
         InnerKind::Buffer => {
             let b = tower::buffer::Buffer::new(w.probe(1), 4);
@@ -272,7 +275,7 @@ pub fn targets() -> Vec<String> {
 pub fn gen_t(rng: &mut Prng, index: usize) -> TCfg {
     let ts = targets();
     let target = ts[index % ts.len()].clone();
-    let kinds = [InnerKind::Probe, InnerKind::Probe, InnerKind::ProbePending(1), InnerKind::ProbePending(3), InnerKind::ProbeReadyErr, InnerKind::Buffer, InnerKind::ConcurrencyLimit];
+    let kinds = [InnerKind::Probe, InnerKind::Probe, InnerKind::ProbePending(1), InnerKind::ProbePending(3), InnerKind::ProbeReadyErr, InnerKind::Buffer, InnerKind::ConcurrencyLimit, InnerKind::ProbeWarm(2000)];
     let kind = kinds[(index / ts.len()) % kinds.len()];
     let n = rng.range(2, 8);
     let reqs = (0..n).map(|_| (rng.chance(0.6), *rng.pick(&[0u64, 0, 1000, 3000]), rng.next())).collect();
@@ -388,6 +391,7 @@ pub fn judge_t(cfg: &TCfg, log: &[Rec]) -> Report {
     let kind = match cfg.kind {
         InnerKind::Probe => "strict-probe",
         InnerKind::ProbePending(_) => "pending-probe",
+        InnerKind::ProbeWarm(_) => "warming-probe",
         InnerKind::ProbeReadyErr => "ready-error",
         InnerKind::Buffer => "buffer",
         InnerKind::ConcurrencyLimit => "concurrency-limit",
@@ -412,7 +416,7 @@ pub fn judge_t(cfg: &TCfg, log: &[Rec]) -> Report {
                     };
                     let pend = inner_ready_since_arrive.iter().filter(|x| **x == 1).count();
                     let readys = inner_ready_since_arrive.iter().filter(|x| **x == 0).count();
-                    if matches!(cfg.kind, InnerKind::Probe | InnerKind::ProbePending(_)) && (readys == 0 || pend < need_pending || inner_ready_since_arrive.last() != Some(&0)) {
+                    if matches!(cfg.kind, InnerKind::Probe | InnerKind::ProbePending(_) | InnerKind::ProbeWarm(_)) && (readys == 0 || pend < need_pending || inner_ready_since_arrive.last() != Some(&0)) {
                         rep.violate(
                             format!("C20:readiness:{t}:ready-without-inner-ready"),
                             format!("r{req}: outer poll_ready reported Ready but the wrapped service's poll_ready answers since arrival were {:?} (0 ready, 1 pending)", inner_ready_since_arrive),
@@ -426,7 +430,7 @@ pub fn judge_t(cfg: &TCfg, log: &[Rec]) -> Report {
             }
             Ev::InnerEnter { req, serial, payload, ready, attempt, .. } => {
                 enters.entry(*req).or_default().push((*serial, *payload, *ready, *attempt));
-                if !*ready && matches!(cfg.kind, InnerKind::Probe | InnerKind::ProbePending(_)) {
+                if !*ready && matches!(cfg.kind, InnerKind::Probe | InnerKind::ProbePending(_) | InnerKind::ProbeWarm(_)) {
                     rep.violate(
                         format!("C20:readiness:{t}:call-on-unready-instance"),
                         format!("r{req} attempt {attempt}: the wrapped service was called on an instance on which readiness had not been observed since its previous call (inner {kind})"),
